@@ -76,10 +76,16 @@ func registerIntrinsics(e *Engine) {
 			}
 		}
 		args := a[1].(SliceV)
-		msg := in.sprintf(format, args)
+		verbs := fmtVerbs(format)
+		texts := in.errorOperands(verbs, args)
+		var msgV Value
+		if v, ok := in.sprintfBytes(format, texts); ok {
+			msgV = v
+		} else {
+			msgV = StrV{S: in.sprintf(format, texts)}
+		}
 		// %w operands
 		var wrapped []Value
-		verbs := fmtVerbs(format)
 		for i, vb := range verbs {
 			if vb == 'w' && i < args.Len {
 				if iv, ok := in.sliceGet(args, i).(IfaceV); ok && iv.T != nil {
@@ -89,17 +95,19 @@ func registerIntrinsics(e *Engine) {
 		}
 		switch len(wrapped) {
 		case 0:
-			return in.newError(msg)
+			e := in.newError("").(IfaceV)
+			e.V.(*Loc).Kids[0].V = msgV
+			return e
 		case 1:
 			t := in.namedType("fmt", "wrapError")
 			l := in.newLoc(t)
-			l.Kids[0].V = StrV{S: msg}
+			l.Kids[0].V = msgV
 			l.Kids[1].V = wrapped[0]
 			return IfaceV{T: types.NewPointer(t), V: l}
 		default:
 			t := in.namedType("fmt", "wrapErrors")
 			l := in.newLoc(t)
-			l.Kids[0].V = StrV{S: msg}
+			l.Kids[0].V = msgV
 			s := in.makeSlice(errorType, len(wrapped), len(wrapped))
 			for i, w := range wrapped {
 				in.sliceSet(s, i, w)
@@ -110,10 +118,11 @@ func registerIntrinsics(e *Engine) {
 	}
 	I["fmt.Sprintf"] = func(in *Interp, fn *ssa.Function, a []Value) Value {
 		format := in.concreteStr(a[0], "Sprintf format")
-		if v, ok := in.sprintfBytes(format, a[1].(SliceV)); ok {
+		args := in.errorOperands(fmtVerbs(format), a[1].(SliceV))
+		if v, ok := in.sprintfBytes(format, args); ok {
 			return v
 		}
-		return StrV{S: in.sprintf(format, a[1].(SliceV))}
+		return StrV{S: in.sprintf(format, args)}
 	}
 	sprint := func(in *Interp, fn *ssa.Function, a []Value) Value {
 		args := a[0].(SliceV)
@@ -126,9 +135,49 @@ func registerIntrinsics(e *Engine) {
 	I["fmt.Sprint"] = sprint
 	I["fmt.Sprintln"] = sprint
 	noop := func(in *Interp, fn *ssa.Function, a []Value) Value { return in.zeroResults(fn) }
-	for _, n := range []string{"fmt.Printf", "fmt.Println", "fmt.Print", "fmt.Fprintf", "fmt.Fprintln", "fmt.Fprint"} {
+	for _, n := range []string{"fmt.Printf", "fmt.Println", "fmt.Print"} {
 		I[n] = noop
 	}
+	// Fprint*: the text goes to the writer (messages that are hashed, signed or
+	// shown are built this way); writes to the process's own files are dropped.
+	fprint := func(in *Interp, fn *ssa.Function, w Value, text StrV) Value {
+		iv, ok := w.(IfaceV)
+		if !ok || iv.T == nil {
+			return in.zeroResults(fn)
+		}
+		if strings.HasSuffix(iv.T.String(), "os.File") {
+			return in.zeroResults(fn)
+		}
+		return in.callMethod(iv, "Write", in.bytesToSlice(in.strBytes(text)))
+	}
+	I["fmt.Fprintf"] = func(in *Interp, fn *ssa.Function, a []Value) Value {
+		format := in.concreteStr(a[1], "Fprintf format")
+		args := in.errorOperands(fmtVerbs(format), a[2].(SliceV))
+		if v, ok := in.sprintfBytes(format, args); ok {
+			return fprint(in, fn, a[0], v)
+		}
+		return fprint(in, fn, a[0], StrV{S: in.sprintf(format, args)})
+	}
+	fprintOperands := func(nl bool) func(in *Interp, fn *ssa.Function, a []Value) Value {
+		return func(in *Interp, fn *ssa.Function, a []Value) Value {
+			args := a[1].(SliceV)
+			format := ""
+			if !args.Nil {
+				args = in.conc(args)
+				format = strings.TrimSuffix(strings.Repeat("%v ", args.Len), " ")
+			}
+			if nl {
+				format += "\n"
+			}
+			args = in.errorOperands(fmtVerbs(format), args)
+			if v, ok := in.sprintfBytes(format, args); ok {
+				return fprint(in, fn, a[0], v)
+			}
+			return fprint(in, fn, a[0], StrV{S: in.sprintf(format, args)})
+		}
+	}
+	I["fmt.Fprintln"] = fprintOperands(true)
+	I["fmt.Fprint"] = fprintOperands(false)
 	// --- errors ------------------------------------------------------
 	I["errors.Is"] = func(in *Interp, fn *ssa.Function, a []Value) Value {
 		return in.ctx.Bool(in.errorsIs(a[0].(IfaceV), a[1].(IfaceV), 0))
@@ -381,7 +430,7 @@ func (in *Interp) sprintfBytes(format string, args SliceV) (StrV, bool) {
 		case StrV:
 			bs = in.strBytes(x)
 		case SliceV:
-			if x.SLen != nil || x.Nil && verb != 's' && verb != 'x' && verb != 'X' {
+			if x.SLen != nil || x.Nil && verb != 's' && verb != 'x' && verb != 'X' || verb == 'w' {
 				return StrV{}, false
 			}
 			if !x.Nil {
@@ -419,8 +468,8 @@ func (in *Interp) sprintfBytes(format string, args SliceV) (StrV, bool) {
 			}
 		}
 		switch verb {
-		case 's', 'v':
-			if _, isStr := v.(StrV); !isStr && verb == 'v' {
+		case 's', 'v', 'w':
+			if _, isStr := v.(StrV); !isStr && verb != 's' {
 				return StrV{}, false // %v of a byte slice prints numbers
 			}
 			out = append(out, bs...)
@@ -587,4 +636,49 @@ func (in *Interp) errorsAs(err, target IfaceV, depth int) bool {
 // opaqueCall: the call has no effect and returns zero values (logging etc.)
 func (in *Interp) opaqueCall(fn *ssa.Function, args []Value, policy string) Value {
 	return in.zeroResults(fn)
+}
+
+
+// errorOperands returns the operand list with every error value that is
+// printed through %w, %v or %s replaced by the text its Error method returns
+// (executed symbolically like any other call), so that messages built from
+// wrapped errors keep their bytes.
+func (in *Interp) errorOperands(verbs []byte, args SliceV) SliceV {
+	if args.Nil || args.SLen != nil {
+		return args
+	}
+	var out *SliceV
+	for i := 0; i < args.Len && i < len(verbs); i++ {
+		if vb := verbs[i]; vb != 'w' && vb != 'v' && vb != 's' {
+			continue
+		}
+		iv, ok := in.sliceGet(args, i).(IfaceV)
+		if !ok || iv.T == nil || !types.Implements(iv.T, errorType.Underlying().(*types.Interface)) {
+			continue
+		}
+		if l, isLoc := iv.V.(*Loc); isLoc && l == nil {
+			continue
+		}
+		if _, isPtr := under(iv.T).(*types.Pointer); isPtr {
+			if l, isLoc := iv.V.(*Loc); !isLoc || l == nil {
+				continue
+			}
+		}
+		txt, ok := in.callMethod(iv, "Error").(StrV)
+		if !ok {
+			continue
+		}
+		if out == nil {
+			cp := in.makeSlice(args.Arr.ElemT, args.Len, args.Len)
+			for k := 0; k < args.Len; k++ {
+				in.sliceSet(cp, k, in.sliceGet(args, k))
+			}
+			out = &cp
+		}
+		in.sliceSet(*out, i, IfaceV{T: types.Typ[types.String], V: txt})
+	}
+	if out == nil {
+		return args
+	}
+	return *out
 }
